@@ -11,16 +11,16 @@
 /// Check for `assertion`: "attempt to add with overflow"
 
 #[test]
-fn kani_concrete_playback_c09_request_validate_spec_1991861270001581921() {
+fn kani_concrete_playback_c09_request_validate_spec_12111371998150310099() {
     let concrete_vals: Vec<Vec<u8>> = vec![
-        // 4294967293
-        vec![253, 255, 255, 255],
+        // 2147483647
+        vec![255, 255, 255, 127],
         // 4294967295
         vec![255, 255, 255, 255],
         // 16383
         vec![255, 63, 0, 0],
-        // 4294967293ul
-        vec![253, 255, 255, 255, 0, 0, 0, 0],
+        // 2147483647ul
+        vec![255, 255, 255, 127, 0, 0, 0, 0],
         // 4294967295ul
         vec![255, 255, 255, 255, 0, 0, 0, 0],
         // 8191ul
